@@ -1213,8 +1213,10 @@ class ktensor:
         wsubs, _ = W.find()
 
         # Assemble return array
-        nvals = wsubs.shape[0]
+        nvals = W.nnz
         vals = np.zeros((nvals, 1))
+        if nvals == 0:
+            return vals
         for j in range(self.ncomponents):
             tmpvals = self.weights[j] * np.ones((nvals, 1))
             for k in range(self.ndims):
